@@ -502,6 +502,9 @@ func TestC02(t *testing.T) {
 			}
 		}
 	}
+	// a case that has not finished after a minute of real time (normal: milliseconds) is examined
+	// for a goroutine spinning in library code (rep.Guard)
+	r.Guard(60 * time.Second)
 	n := r.N(2400, 240000)
 	for i := 0; i < n; i++ {
 		if !r.Only(i) {
@@ -520,7 +523,9 @@ func TestC02(t *testing.T) {
 			}
 		}
 		c.Seed = fmt.Sprintf("seed=%d lane=%d case=%d", r.Seed, r.Lane, i)
+		r.Begin(fmt.Sprint(i), c)
 		key, msg, stats := runC02(c, r)
+		r.End(fmt.Sprint(i))
 		r.Case(c02Sig(c), stats["message_events"] > 0)
 		for k, v := range stats {
 			r.Obs(k, v)
